@@ -701,6 +701,15 @@ static void http_response_backend_incomplete (request_st * const r) {
 	r->handler_module = NULL;
 }
 
+__attribute_cold__
+static void http_response_backend_abort (request_st * const r) {
+	/* backend response is incomplete and response headers have already
+	 * been sent to client; kill the connection (HTTP/2: reset the stream) */
+	r->keep_alive = 0;
+	if (r->http_version >= HTTP_VERSION_2)
+		request_set_state_error(r, CON_STATE_ERROR); /*(RST_STREAM)*/
+}
+
 void http_response_backend_error (request_st * const r) {
 	if (r->resp_body_started && 0 == r->resp_header_len) {
 		/*(response headers not yet sent)*/
@@ -710,7 +719,7 @@ void http_response_backend_error (request_st * const r) {
 		/*(response might have been already started, kill the connection)*/
 		/*(mode == DIRECT to avoid later call to http_response_backend_done())*/
 		r->handler_module = NULL;  /*(avoid sending final chunked block)*/
-		r->keep_alive = 0;
+		http_response_backend_abort(r);
 		r->resp_body_finished = 1;
 	} /*(else error status set later by http_response_backend_done())*/
 }
@@ -742,7 +751,7 @@ void http_response_backend_done (request_st * const r) {
 					http_response_backend_incomplete(r);
 					break;
 				}
-				r->keep_alive = 0;
+				http_response_backend_abort(r);
 			}
 			if (r->http_version == HTTP_VERSION_1_1)
 				http_chunk_close(r);
